@@ -66,6 +66,47 @@ def _run_variant(args):
         shutil.rmtree(tmp, ignore_errors=True)
 
 
+def _probe(args):
+    """whole-tree behaviour-preserving transformation: findings must not grow, rule instance counts must not shrink."""
+    prop, repo, tmp = args
+    mod = importlib.import_module(f"cxa.props.{prop.lower()}")
+    out = {}
+    for label, root in (("base", repo), ("probe", tmp)):
+        try:
+            res = mod.run(Index(root), tier="quick", seed=0)
+            out[label] = ({f"{f.rule}|{f.key}" for f in res.findings}, {k: v["instances"] for k, v in res.rules.items()}, None)
+        except AnalysisError as e:
+            out[label] = (set(), {}, str(e)[:100])
+    return prop, out
+
+
+def run_probes(props, repo):
+    """alpha-renaming of every function-local variable (+ ast.unparse normalisation) of the whole package."""
+    from .alpha import write_tree
+    tmp = tempfile.mkdtemp(prefix="cxa_alpha_")
+    ok = True
+    try:
+        n = write_tree(repo, tmp, rename=True)
+        with ProcessPoolExecutor(max_workers=min(16, max(1, len(props)))) as ex:
+            results = list(ex.map(_probe, [(p, repo, tmp) for p in props]))
+        for prop, out in results:
+            (bf, bc, be), (pf, pc, pe) = out["base"], out["probe"]
+            if pe and not be:
+                ok = False
+                print(f"SELFTEST alpha-renaming probe [{prop}]: analysis error on the renamed tree: {pe}")
+            elif pf - bf:
+                ok = False
+                print(f"SELFTEST false alarm on the alpha-renamed tree [{prop}]: {sorted(pf - bf)[:3]}")
+            elif any(pc.get(k, 0) < v for k, v in bc.items()):
+                ok = False
+                lost = {k: (v, pc.get(k, 0)) for k, v in bc.items() if pc.get(k, 0) < v}
+                print(f"SELFTEST coverage lost on the alpha-renamed tree [{prop}]: {lost}")
+        print(f"selftest probe: {n} local variables renamed, {len(props)} properties compared, {'ok' if ok else 'FAILED'}")
+    finally:
+        shutil.rmtree(tmp, ignore_errors=True)
+    return ok
+
+
 def run_selftest(props=None, seed=0, repo=None, verbose=True):
     repo = repo or os.environ.get("CXA_REPO", REPO)
     if isinstance(props, str):
@@ -114,6 +155,9 @@ def run_selftest(props=None, seed=0, repo=None, verbose=True):
                     summary["rewrite_alarm"] += 1
                     ok = False
                     print(f"SELFTEST false alarm on rewrite {vid} [{prop}]: {status} {rules} {sample}")
+    probe_ok = run_probes(need, repo)
+    summary["alpha_probe"] = "ok" if probe_ok else "failed"
+    ok = ok and probe_ok
     print(f"selftest: {summary} in {time.time() - t0:.1f}s")
     run_selftest.last_summary = dict(summary, variants=len(variants), wall_s=round(time.time() - t0, 1))
     return ok
